@@ -31,6 +31,10 @@ Lemma is_property_shape_h s : is_property_shape (h s) = is_property_shape s.
 Proof. unfold is_property_shape. destruct (Hh s) as (_ & -> & _). reflexivity. Qed.
 Lemma mk_h s c f v d : mk (h s) c f v d = mk s c f v d.
 Proof. unfold mk, mkp, shape_rpath. destruct (Hh s) as (-> & -> & _ & -> & _ & ->). reflexivity. Qed.
+Lemma shape_rpath_h s : shape_rpath (h s) = shape_rpath s.
+Proof. unfold shape_rpath. destruct (Hh s) as (_ & -> & _). reflexivity. Qed.
+Lemma mkm_h s c f v p m : mkm (h s) c f v p m = mkm s c f v p m.
+Proof. unfold mkm. destruct (Hh s) as (-> & _ & _ & -> & _ & ->). reflexivity. Qed.
 Lemma in_triggers_h pr s : in_triggers pr (h s) = in_triggers pr s.
 Proof. unfold in_triggers. destruct (Hh s) as (-> & _). reflexivity. Qed.
 
@@ -152,6 +156,15 @@ Proof.
     { apply flat_map_ext. intros ps. destruct (Hh ps) as (_ & -> & _). reflexivity. }
     rewrite Hw. apply flat_map_ext. intros fv. apply flat_map_ext. intros v. apply flat_map_ext. intros t.
     destruct (_ || _ || _); [reflexivity|]. unfold mkp. destruct (Hh s) as (-> & _ & _ & -> & _ & ->). reflexivity.
+  - f_equal. f_equal. apply flat_map_ext. intros sc. destruct (sc_deact sc); [reflexivity|].
+    apply flat_map_ext. intros fv. rewrite is_property_shape_h, shape_rpath_h. apply map_ext. intros so.
+    rewrite !mkm_h. reflexivity.
+  - rewrite is_property_shape_h, shape_rpath_h. destruct (cc_val cc) as [answers|rows].
+    + f_equal. f_equal. apply flat_map_ext. intros fv. apply flat_map_ext. intros v.
+      destruct (ask_of answers (fst fv) v) as [[[] msgs]|]; try reflexivity. rewrite mkm_h. reflexivity.
+    + f_equal. apply concatM_map_ext_in. intros fv _. apply concatM_map_ext_in. intros v _.
+      apply concatM_map_ext_in. intros so _.
+      destruct (sol_bound so); [rewrite mkm_h; reflexivity|reflexivity].
 Qed.
 
 Lemma loop_h o top s ev cs nc nw acc : loop o top (h s) ev cs nc nw acc = loop o top s ev cs nc nw acc.
